@@ -332,6 +332,31 @@ class Extractor:
                 for i, a in enumerate(F.call_args(t)):
                     if a[0] in ("cp", "mv") and not a[1][1] and ("ref", a[1][0]) in env:
                         muts.append((i, env[("ref", a[1][0])]))
+            decl0 = c.get("fn", "")
+            last0 = (key or "").rsplit("::", 1)[-1]
+            if muts and last0 in ("new_unchecked", "as_mut", "get_mut", "get_unchecked_mut", "deref_mut", "borrow_mut", "as_deref_mut") and len(F.call_args(t)) == 1:
+                # reference-to-reference conversions (Pin::new_unchecked(&mut f), ...): the result points at the same place
+                d = F.call_dest(t)
+                if not d[1]:
+                    tl, tproj = muts[0][1]
+                    env[("ref", d[0])] = (tl, tuple(tproj))
+                    env[d[0]] = self.read(body, env, [tl, list(tproj)])
+                    if t[4] is None:
+                        return ("never",)
+                    return self._block(body, t[4], env, path, depth)
+            if muts and decl0.endswith("future::future::Future::poll"):
+                tl, tproj = muts[0][1]
+                fut = self.read(body, env, [tl, list(tproj)])
+                while fut[0] == "call" and fut[1].rsplit("::", 1)[-1] in ("into_future",) and fut[2]:
+                    fut = fut[2][0]
+                d = F.call_dest(t)
+                self.discr_of["core::task::poll::Poll::Ready"] = 0
+                self.discr_of["core::task::poll::Poll::Pending"] = 1
+                env[LOG] = env.get(LOG, ()) + (("await", fut),)
+                env[d[0]] = ("agg", "core::task::poll::Poll::Ready", (("await", fut),))
+                if t[4] is None:
+                    return ("never",)
+                return self._block(body, t[4], env, path, depth)
             if muts:
                 # current pointee values stand for the `&mut` arguments
                 args = tuple(self.read(body, env, [m[1][0], list(m[1][1])]) if any(m[0] == i for m in muts) and False else self.operand(body, env, a)
@@ -344,7 +369,7 @@ class Extractor:
                 if d[1]:
                     raise Unsupported("call result into projected place in %s" % body.key)
                 rty = body.local_tystr(d[0])
-                if rty.startswith("&mut") or "&mut " in rty:
+                if rty.startswith("&mut") or rty.startswith("core::option::Option<&mut") or rty.startswith("core::pin::Pin<&mut"):
                     raise Unsupported("call returning a mutable reference (%s) in %s" % (key, body.key))
                 for i, (tl, tproj) in muts:
                     self.write(body, env, [tl, list(tproj)], ("upd", key, i, args), bb)
@@ -358,6 +383,17 @@ class Extractor:
             if key in self.inline and key in self.prog.bodies:
                 self.inlined.add(key)
                 res = self.run(self.prog.bodies[key], args, depth + 1)
+            elif decl.endswith("future::future::Future::poll") and len(args) == 2:
+                # an `.await`: the future completes with a value named after the future (the Pending arm, which only
+                # yields and polls again, is not a behaviour of its own)
+                fut = args[0]
+                while fut[0] == "call" and fut[1].rsplit("::", 1)[-1] in ("new_unchecked", "into_future", "get_unchecked_mut", "as_mut") and fut[2]:
+                    fut = fut[2][0]
+                res = ("agg", "core::task::poll::Poll::Ready", (("await", fut),))
+                self.discr_of["core::task::poll::Poll::Ready"] = 0
+                self.discr_of["core::task::poll::Poll::Pending"] = 1
+                if self.effects:
+                    env[LOG] = env.get(LOG, ()) + (("await", fut),)
             elif decl.endswith("ops::try_trait::Try::branch") and len(args) == 1 and args[0][0] == "agg" and args[0][1].rsplit("::", 1)[-1] in ("Ok", "Some", "Err", "None"):
                 v = args[0][1].rsplit("::", 1)[-1]
                 CF = "core::ops::control_flow::ControlFlow::"
@@ -597,6 +633,8 @@ def term_str(t, depth=0):
         return "match %s {%s, _ => %s}" % (term_str(t[1]), ", ".join("%s => %s" % (v, term_str(x)) for v, x in t[2]), term_str(t[3]))
     if k == "index":
         return "%s[%s]" % (term_str(t[1]), term_str(t[2]))
+    if k == "await":
+        return "await(%s)" % term_str(t[1])
     if k == "stop":
         return "stop(bb%s)" % t[1]
     if k == "divc":
